@@ -85,6 +85,12 @@ def rnd_value(rng, w, mode):
     return rng.getrandbits(w)
 
 
+# explicit MSM shapes: ("shape", NSat, NSig, NCell, last-slot-present): products beyond 64 cells (a cell mask wider than 64 bits),
+# exactly 64 satellites / cells (the widest index), 63 (one below), single cells, the last satellite / cell slot in use
+MSM_SHAPES = [("shape", 13, 5, 7, 0), ("shape", 11, 6, 66, 1), ("shape", 33, 2, 5, 1), ("shape", 40, 3, 9, 0), ("shape", 64, 1, 64, 1),
+              ("shape", 8, 8, 64, 1), ("shape", 16, 4, 64, 1), ("shape", 32, 2, 64, 1), ("shape", 64, 32, 3, 1), ("shape", 63, 1, 63, 0),
+              ("shape", 64, 1, 2, 1), ("shape", 1, 1, 1, 1), ("shape", 3, 32, 40, 1), ("shape", 9, 7, 63, 1), ("shape", 64, 2, 1, 0),
+              ("shape", 2, 2, 0, 0), ("shape", 7, 9, 1, 1), ("shape", 65 // 5, 5, 65, 1)]
 MASK64 = [0, 1, 1 << 63, (1 << 63) | 1, 3 << 62, (1 << 64) - 1]
 MASK32 = [0, 1, 1 << 31, (1 << 31) | (1 << 30), 6 << 28, 1 << 30, (1 << 32) - 1]
 
@@ -177,7 +183,13 @@ def _build(tabs, ident, rng, maxcount=3, mode="rand", maskmode=None, force_count
             elif k == "DF396":
                 w = env["NSat"] * env["NSig"]
                 pc[path + ("#NSat", "#NSig")] = w
-                if maskmode == "full":
+                if isinstance(maskmode, tuple):
+                    val = 0
+                    for q in rng.sample(range(w), min(maskmode[3], w)):
+                        val |= 1 << q
+                    if maskmode[3] and w and len(maskmode) > 4 and maskmode[4]:
+                        val |= 1            # the last cell (LSB) present
+                elif maskmode == "full":
                     val = (1 << w) - 1
                 elif maskmode == "empty":
                     val = 0
@@ -186,7 +198,15 @@ def _build(tabs, ident, rng, maxcount=3, mode="rand", maskmode=None, force_count
                 else:
                     val = rnd_value(rng, w, mode if mode != "signbit" else "rand")
             elif k == "DF394":
-                if maskmode in ("full",):
+                if isinstance(maskmode, tuple):
+                    val = 0
+                    for q in rng.sample(range(64), min(maskmode[1], 64)):
+                        val |= 1 << q
+                    if len(maskmode) > 4 and maskmode[4] and maskmode[1]:
+                        if popcount(val | 1) > maskmode[1]:
+                            val &= val - 1     # drop one bit to keep the count
+                        val |= 1               # satellite ID 64 (LSB) present
+                elif maskmode in ("full",):
                     val = rng.choice([(1 << 64) - 1, rng.getrandbits(64) | rng.getrandbits(64)])
                 elif maskmode == "empty":
                     val = 0
@@ -196,7 +216,11 @@ def _build(tabs, ident, rng, maxcount=3, mode="rand", maskmode=None, force_count
                     val = rng.choice(MASK64[:5] + [rng.getrandbits(64) & rng.getrandbits(64) & rng.getrandbits(64),
                                                    rng.getrandbits(64) & rng.getrandbits(64) & rng.getrandbits(64) & rng.getrandbits(64)])
             elif k == "DF395":
-                if maskmode == "full":
+                if isinstance(maskmode, tuple):
+                    val = 0
+                    for q in rng.sample(range(32), min(maskmode[2], 32)):
+                        val |= 1 << q
+                elif maskmode == "full":
                     val = rng.choice([(1 << 32) - 1, rng.getrandbits(32) | rng.getrandbits(32)])
                 elif maskmode == "empty":
                     val = 0
